@@ -250,7 +250,7 @@ def r2(report, db, cg, type_ci):
                     ','.join(sorted(set(m.qualname for m, _, _ in codec)))[:80]))
     report.note('codec call sites', n_sites)
     report.note('read/send calls on non-codec receivers', n_other)
-    report.floor('codec call sites resolved', n_sites, 150)
+    report.floor('codec call sites resolved', n_sites, 100)
 
 
 # ---------------------------------------------------------------------------
